@@ -133,12 +133,13 @@ MkView(order, lenf, tyf, propf) ==
       ty |-> [c \in {chans[i] : i \in DOMAIN chans} |-> tyf[c]],
       props |-> [p \in {order[i] : i \in DOMAIN order} |-> propf[p]]]
 
-ExplicitView ==
-  LET order == ExplOrder(expl) IN
-  MkView(order,
-         [c \in Chans |-> ExplLen(expl, c)],
-         [c \in Chans |-> IF ExplTyped(expl, c) THEN ty[c] ELSE "none"],
-         [p \in Paths |-> ExplProps(expl, p)])
+ViewOf(es) ==
+  MkView(ExplOrder(es),
+         [c \in Chans |-> ExplLen(es, c)],
+         [c \in Chans |-> IF ExplTyped(es, c) THEN ty[c] ELSE "none"],
+         [p \in Paths |-> ExplProps(es, p)])
+
+ExplicitView == ViewOf(expl)
 
 (* --------------------------- encoding layer --------------------------- *)
 \* encoded segment: [meta, newList, be, il, bytes, listed: Seq([p, kind, n, ty, props]), layout]
